@@ -90,13 +90,35 @@ def make_case(seed, i, force_end=None):
     removed_targets = {}
     toggled = []
     added_imports = []
-    for e in range(n_edits):
+    pending_tail = []
+    for e in range(n_edits + 1):
         r = rng.fork("edit", e)
+        if pending_tail and (e == n_edits or r.fork("untail").chance(0.6)):
+            p_, before_ = pending_tail.pop()
+            if p_ in cur and cur[p_].startswith(before_.rstrip("\n")) and "ZqTail" in cur[p_]:
+                cur[p_] = before_
+                edits.append({"kind": "write" if r.chance(0.5) else "atomic", "path": p_, "data": before_, "steps": 1})
+                log.append("the appended record removed again from " + p_)
+        if e == n_edits:
+            break
         if e > 0 and r.fork("pause").chance(0.2):
             edits.append({"kind": "pause"})      # the person at the editor waits until the tool has gone quiet
         kind = r.weighted([("model", 5), ("import_model", 3 if state.imports else 0), ("manifest", 4), ("break_repair", 2), ("touch", 1),
                            ("import_manifest_break_repair", 2 if state.imports else 0), ("subdir", 1.5), ("replace_import_dir", 1.5 if state.imports else 0),
-                           ("version_model", 4 if state.versions else 0)])
+                           ("version_model", 4 if state.versions else 0), ("tail_def", 2)])
+        if kind == "tail_def":
+            # a definition appended at the very end of the model file that is read last (it becomes the last thing in several
+            # generated files), taken away again by a later save: the new generated text is a prefix of the old one
+            mfs = model_files_recursive(cur)
+            if mfs and not pending_tail:
+                p_ = max(mfs)
+                pending_tail.append((p_, cur[p_]))
+                cur[p_] = cur[p_].rstrip("\n") + "\n\nZqTail%d: !record\n  fields:\n    stamp: uint64\n    text: string\n" % e
+                edits.append({"kind": "write" if r.chance(0.5) else "atomic", "path": p_, "data": cur[p_], "steps": r.randint(1, 2)})
+                if r.chance(0.5):
+                    edits.append({"kind": "pause"})
+                log.append("a record appended at the end of " + p_)
+            continue
         if kind == "subdir":
             # directory life cycle inside the package directory: a new sub-directory with a model file (mkdir, then the
             # file), a later save of that file, or the removal of the whole sub-directory again
@@ -490,6 +512,16 @@ def execute(sim, doc):
     clean = sim.run(tw.oneshot_spec(final_inputs(doc), doc["cwd"], args=tuple(["generate"] + list(doc.get("config_args") or []))), mapseed=doc["mapseed"])
     st["runs"] += 1
     if clean.get("status") == "returned" and clean["exit_code"] == 0:
+        # O4: every file that a generation of the final package into empty output directories writes is on disk with exactly
+        # that content (O1 starts from the disk the session left, so it cannot see stale content that a one-shot run would
+        # leave alone as well)
+        inputs_ = final_inputs(doc)
+        for p_, e_ in sorted(clean["tree"].items()):
+            if p_ in inputs_ or e_["k"] == "d":
+                continue
+            have = tree.get(p_)
+            if have is None or have["k"] != e_["k"] or (e_["k"] == "f" and have.get("d") != e_.get("d")) or (e_["k"] == "l" and have.get("t") != e_.get("t")):
+                return {"class": "not_converged", "first": "%s %s" % ("missing" if have is None else "stale", p_.replace("/w/", "")), "n_diffs": 1, "oracle": "O4"}, st
         allowed = set(clean["tree"])
         last_edit = max([o["seq"] for o in res["ops"] if o["op"] == "edit"] or [0])
         born = {o["g"]: o["seq"] for o in res["ops"] if o["op"] == "born"}
